@@ -68,10 +68,10 @@ class NoneObject:
     def __gt__(a, b):
         return False
 
-    def __lte__(a, b):
+    def __le__(a, b):
         return False
 
-    def __gte__(a, b):
+    def __ge__(a, b):
         return False
 
     def __noteq__(a, b):
